@@ -3,3 +3,4 @@ import XtModel.Model.Encoding
 import XtModel.Props.C07
 import XtModel.Model.Cli
 import XtModel.Model.CliWire
+import XtModel.Props.C13
